@@ -269,14 +269,8 @@ Proof.
   rewrite (lc_bind_Proper_l _ _ _ HX).
   rewrite (lc_bind_Proper_l _ _ _ (den_hnof ks hj n)).
   rewrite lc_bind_single'. unfold lapp at 1. cbn [fst snd]. rewrite HX.
-  rewrite Hx1. rewrite den_map. unfold den at 3.
+  rewrite Hx1. rewrite den_map. unfold den.
   rewrite lc_scale_scale.
-  assert (Hsc : lc_eq (lc_scale (gmul (gopp g1) (cval hj n))
-                   (map (fun t : term => den_term ks (fst t, CMul (CMul (CConst (if lex_neg (fst t) then gopp g1 else g1))
-                                       (CInv (denominator ks hi hj (fst t)))) (snd t)) n) y))
-                 (lc_scale (gmul (gopp g1) (cval hj n))
-                   (map (fun t : term => den_term ks (fst t, CMul (CMul (CConst (if lex_neg (fst t) then gopp g1 else g1))
-                                       (CInv (denominator ks hi hj (fst t)))) (snd t)) n) y))) by reflexivity.
   apply comm_sum. intros [p c] Ht. cbn [fst snd].
   rewrite Forall_forall in Hwf. pose proof (pow_ok_length _ _ (Hwf _ Ht)) as Hp. cbn [fst] in Hp.
   pose proof (comm_term ks p c
